@@ -174,6 +174,10 @@ func cmdCheck(args []string) int {
 			rep.Add("load", "load and type-check of "+*repo, "-", core.Undecided, err.Error())
 		} else {
 			rep = runProperty(pr, prog)
+			if prog.Canonicalised > 0 {
+				rep.Extra["statements_canonicalised_at_load"] = prog.Canonicalised
+				rep.Assume(fmt.Sprintf("%d statements of the shape `r := e; return r` / `c := e; if c {...}` (the local used nowhere else) were read as `return e` / `if e {...}` (core/canon.go)", prog.Canonicalised))
+			}
 			if rn := prog.Renames(); len(rn) > 0 {
 				rep.Extra["renames_recognised"] = rn
 				rep.Assume("identifiers of the reference tree that are absent here were matched to new identifiers of the same package / receiver / struct with the same signature or type and read under their reference names: " + strings.Join(rn, "; "))
